@@ -18,9 +18,11 @@ package ur
 
 import (
 	"context"
+	"encoding/json"
 	"errors"
 	"fmt"
 	"reflect"
+	"strconv"
 	"strings"
 	"unicode"
 )
@@ -258,42 +260,150 @@ func c20Batch(name string, ft reflect.Type) func([]reflect.Value) []reflect.Valu
 	}
 }
 
-// c20Requires implements a resolver-backed @requires field z: it echoes the
-// required external field w - from the injected _federationRequires argument
-// (computed_requires) or from the entity the generated code populated.
+// The @requires fields of the probe: w: String, n: Int!, l: [String!]. c20CoerceReq coerces the
+// value a representation carries for one of them the way user code (an explicit_requires
+// populator, a computed_requires resolver) has to: absent / null is legal for the nullable ones.
+func c20CoerceReq(field string, v any, present bool) (any, error) {
+	if !present {
+		v = nil
+	}
+	switch field {
+	case "w":
+		switch x := v.(type) {
+		case nil:
+			return nil, nil
+		case string:
+			return x, nil
+		}
+	case "n":
+		switch x := v.(type) {
+		case float64:
+			if x == float64(int(x)) {
+				return int(x), nil
+			}
+		case int:
+			return x, nil
+		case int64:
+			return int(x), nil
+		case json.Number:
+			if n, err := x.Int64(); err == nil {
+				return int(n), nil
+			}
+		}
+	case "l":
+		switch x := v.(type) {
+		case nil:
+			return nil, nil
+		case []any:
+			out := make([]string, len(x))
+			for i, e := range x {
+				s, ok := e.(string)
+				if !ok {
+					return nil, fmt.Errorf("E:requires %s[%d]: %T is not a String", field, i, e)
+				}
+				out[i] = s
+			}
+			return out, nil
+		}
+	}
+	return nil, fmt.Errorf("E:requires %s: cannot coerce %T", field, v)
+}
+
+func c20EchoVal(v any) string {
+	switch x := v.(type) {
+	case nil:
+		return "null"
+	case string:
+		return x
+	case int:
+		return strconv.Itoa(x)
+	case []string:
+		if x == nil {
+			return "null"
+		}
+		if len(x) == 0 {
+			return "empty"
+		}
+		return x[0]
+	}
+	return fmt.Sprint(v)
+}
+
+var c20ReqFields = []string{"w", "n", "l"}
+
+func c20FieldByTag(st reflect.Value, tag string) (reflect.Value, bool) {
+	for i := 0; i < st.NumField(); i++ {
+		if strings.Split(st.Type().Field(i).Tag.Get("json"), ",")[0] == tag {
+			return st.Field(i), true
+		}
+	}
+	return reflect.Value{}, false
+}
+
+// c20Requires implements the resolver-backed @requires field z: it echoes the required external
+// fields of its type (w, n, l joined by "|") - coerced from the injected _federationRequires
+// argument (computed_requires; a value that cannot be coerced is the resolver's error), or read
+// from the entity the generated code / the populator filled.
 func c20Requires(ft reflect.Type) func([]reflect.Value) []reflect.Value {
 	rt := ft.Out(0)
 	return func(in []reflect.Value) []reflect.Value {
-		val := "unset"
-		found := false
+		var reqMap reflect.Value
 		for _, a := range in[1:] {
 			if a.Kind() == reflect.Map {
-				found = true
-				if a.IsNil() {
-					val = "nomap"
-					break
-				}
-				w := a.MapIndex(reflect.ValueOf("w"))
-				if w.IsValid() {
-					val = c20Arg(w)
-				} else {
-					val = "absent"
-				}
+				reqMap = a
 			}
 		}
-		if !found && len(in) > 1 {
-			obj := in[1]
-			for obj.Kind() == reflect.Ptr && !obj.IsNil() {
-				obj = obj.Elem()
-			}
-			if obj.Kind() == reflect.Struct {
-				for i := 0; i < obj.NumField(); i++ {
-					if strings.Split(obj.Type().Field(i).Tag.Get("json"), ",")[0] == "w" {
-						val = c20Arg(obj.Field(i))
+		obj := in[1]
+		for obj.Kind() == reflect.Ptr && !obj.IsNil() {
+			obj = obj.Elem()
+		}
+		var parts []string
+		var err error
+		if obj.Kind() == reflect.Struct {
+			for _, f := range c20ReqFields {
+				fv, ok := c20FieldByTag(obj, f)
+				if !ok {
+					continue
+				}
+				if reqMap.IsValid() {
+					var raw any
+					present := false
+					if !reqMap.IsNil() {
+						if mv := reqMap.MapIndex(reflect.ValueOf(f)); mv.IsValid() {
+							present = true
+							raw = mv.Interface()
+						}
 					}
+					cv, cerr := c20CoerceReq(f, raw, present)
+					if cerr != nil && err == nil {
+						err = cerr
+					}
+					parts = append(parts, c20EchoVal(cv))
+					continue
+				}
+				for fv.Kind() == reflect.Ptr && !fv.IsNil() {
+					fv = fv.Elem()
+				}
+				switch {
+				case fv.Kind() == reflect.Ptr:
+					parts = append(parts, "null")
+				case fv.Kind() == reflect.Slice && fv.IsNil():
+					parts = append(parts, "null")
+				case fv.Kind() == reflect.Slice:
+					if fv.Len() == 0 {
+						parts = append(parts, "empty")
+					} else {
+						parts = append(parts, c20Arg(fv.Index(0)))
+					}
+				default:
+					parts = append(parts, c20Arg(fv))
 				}
 			}
 		}
+		if err != nil {
+			return c20Ret(rt, reflect.Value{}, err)
+		}
+		val := strings.Join(parts, "|")
 		var v reflect.Value
 		switch {
 		case rt.Kind() == reflect.String:
@@ -306,10 +416,10 @@ func c20Requires(ft reflect.Type) func([]reflect.Value) []reflect.Value {
 	}
 }
 
-// C20Populate is the body of the user-written explicit_requires populators of
-// the probe (probes/fed2/federation.requires.go.in): copy w from the
-// representation handed over by the generated code. A nil entity (resolver
-// found nothing) is left alone.
+// C20Populate is the body of the user-written explicit_requires populators of the probe
+// (probes/fed2/federation.requires.go.in): coerce the required fields from the representation
+// handed over by the generated code into the entity; a value that cannot be coerced is an error.
+// A nil entity (the resolver found nothing) is left alone.
 func C20Populate(ctx context.Context, typ string, entity any, reps map[string]any) error {
 	ev := reflect.ValueOf(entity)
 	if ev.Kind() != reflect.Ptr || ev.IsNil() {
@@ -318,26 +428,50 @@ func C20Populate(ctx context.Context, typ string, entity any, reps map[string]an
 	id := fmt.Sprint(reps["id"])
 	if run := RunFrom(ctx); run != nil {
 		run.Log(Event{E: "Pop", P: typ + "(" + id + ")"})
-		if o, ok := run.Plan["pop:"+typ+"("+id+")"]; ok && o.K == "err" {
-			return errors.New("E:pop:" + typ + "(" + id + ")")
-		}
 	}
 	st := ev.Elem()
-	for i := 0; i < st.NumField(); i++ {
-		if strings.Split(st.Type().Field(i).Tag.Get("json"), ",")[0] != "w" {
+	for _, f := range c20ReqFields {
+		fv, ok := c20FieldByTag(st, f)
+		if !ok {
 			continue
 		}
-		w, ok := reps["w"].(string)
-		f := st.Field(i)
-		switch {
-		case !ok:
-			f.Set(reflect.Zero(f.Type()))
-		case f.Kind() == reflect.String:
-			f.SetString(w)
-		case f.Kind() == reflect.Ptr && f.Type().Elem().Kind() == reflect.String:
-			s := reflect.New(f.Type().Elem())
-			s.Elem().SetString(w)
-			f.Set(s)
+		raw, present := reps[f]
+		cv, err := c20CoerceReq(f, raw, present)
+		if err != nil {
+			return err
+		}
+		switch x := cv.(type) {
+		case nil:
+			fv.Set(reflect.Zero(fv.Type()))
+		case string:
+			if fv.Kind() == reflect.Ptr {
+				p := reflect.New(fv.Type().Elem())
+				p.Elem().SetString(x)
+				fv.Set(p)
+			} else {
+				fv.SetString(x)
+			}
+		case int:
+			if fv.Kind() == reflect.Ptr {
+				p := reflect.New(fv.Type().Elem())
+				p.Elem().SetInt(int64(x))
+				fv.Set(p)
+			} else {
+				fv.SetInt(int64(x))
+			}
+		case []string:
+			sl := reflect.MakeSlice(fv.Type(), len(x), len(x))
+			for i, e := range x {
+				el := sl.Index(i)
+				if el.Kind() == reflect.Ptr {
+					p := reflect.New(el.Type().Elem())
+					p.Elem().SetString(e)
+					el.Set(p)
+				} else {
+					el.SetString(e)
+				}
+			}
+			fv.Set(sl)
 		}
 	}
 	return nil
